@@ -236,9 +236,14 @@ impl C02 {
             o.s("what", extra).done()
         };
         let empty = m == 0 || n == 0;
-        let left_before = bio::verif::snapshot().get("banded.tb_left_band").copied().unwrap_or(0);
+        // the traceback either ended outside the band or read cells the banded DP never filled in
+        let tb_outside = || {
+            let s = bio::verif::snapshot();
+            s.get("banded.tb_left_band").copied().unwrap_or(0) + s.get("banded.tb_out_of_band_cell").copied().unwrap_or(0)
+        };
+        let left_before = tb_outside();
         let r = guard(|| invoke(al, c));
-        let left_band = bio::verif::snapshot().get("banded.tb_left_band").copied().unwrap_or(0) > left_before;
+        let left_band = tb_outside() > left_before;
         ctx.eval(1);
         ctx.count(&format!("calls:{}", en), 1);
         let a = match r {
@@ -321,8 +326,9 @@ impl C02 {
                             }
                         }
                     }
-                    // F15: the traceback ended outside the band and its completion chose a gap run where the DP had
-                    // accounted for the (more expensive) prefix clip: the published path is worth more than the score
+                    // F15: the traceback left the band (ended outside it, or walked through cells the banded DP never
+                    // filled in) and the published path has a gap run where the DP had accounted for the (more expensive)
+                    // prefix clip: the published path is worth more than the score
                     if c.entry <= 6 && left_band && s > a.score as i64 {
                         let ops = &a.operations;
                         let lead_del = ops.iter().take_while(|o| **o == Del).count();
@@ -670,6 +676,23 @@ impl C02 {
                 let mut al = Aligner::with_scoring(spec.scoring(), 4, 4);
                 for entry in [2usize, 0, 1] {
                     let c = self.make_call(rng, &spec, b"AABAABBABBA".to_vec(), b"ABABAABB".to_vec(), 4, 4, entry);
+                    self.check_call(ctx, &mut al, &spec, &c, 0, true);
+                }
+            }
+            41 => {
+                // F15, second witness (seed sweep, seed 12): the traceback walks through two out-of-band cells and still
+                // ends at the origin; Del where the DP paid the y prefix clip
+                let spec = Spec {
+                    mf: Mf { kind: 1, ms: 0, mm: 0, tbl: [-4, 1, 1, -5, -4, -3, -5, -3, -4, -4, -2, -5, 0, -4, -1, -2] },
+                    open: 0,
+                    ext: 0,
+                    clips: [-1000, MIN_SCORE, -3, -1000],
+                    sigma: 2,
+                    ms_hint: true,
+                };
+                let mut al = Aligner::with_scoring(spec.scoring(), 1, 0);
+                for entry in [1usize, 0] {
+                    let c = self.make_call(rng, &spec, b"AAA".to_vec(), b"A".to_vec(), 1, 0, entry);
                     self.check_call(ctx, &mut al, &spec, &c, 0, true);
                 }
             }
